@@ -227,6 +227,8 @@ def names_construct(obs):
         return True
     if 'no first op at address 0' in msg:       # a diagnostic about the whole program: there is no smaller construct
         return True
+    if 'nests too deeply' in msg:               # python's recursion limit was hit somewhere in the source: no position exists
+        return True
     return False
 
 
@@ -242,6 +244,9 @@ def judge(case, obs):
         if not (case.get('slow') or HUGE_COUNT.search(case['hint'])):
             return []
         v.append(({'kind': 'hang', 'gen': case['cls']}, f'assembly did not finish within the watchdog ({case["hint"][:120]})'))
+    elif res == 'ok' and case.get('require'):
+        v.append(({'kind': 'wrong-diagnostic', 'required': case['require']['msg'], 'exc': None, 'cause': None},
+                  f'the assembly of a cyclic macro recursion succeeded; required: "{case["require"]["msg"]} ..."'))
     elif res == 'crash':
         v.append(({'kind': 'crash', 'gen': case['cls']}, f'the assembling process died (status {obs.get("status")})'))
     elif res == 'exception':
@@ -259,6 +264,12 @@ def judge(case, obs):
         elif not obs['lib']:
             v.append(({'kind': 'raw', 'exc': obs['cls'], 'stage': obs['stage'], 'frame': obs['frame']},
                       f'raw Python exception {obs["cls"]} escapes flipjump.assemble from {obs["frame_file"]}:{obs["frame"]}'))
+        elif case.get('require') and not (obs['cls'] == case['require']['cls'] and case['require']['msg'] in obs['msg']):
+            # a cyclic macro recursion is what max_recursion_depth exists for: the preprocessor's own depth check has to
+            # fire (before python's stack does), whatever kind of call closes the cycle
+            v.append(({'kind': 'wrong-diagnostic', 'required': case['require']['msg'], 'exc': obs['cls'], 'cause': obs['cause']},
+                      f'the required diagnostic is {case["require"]["cls"]} "{case["require"]["msg"]} ...", the assembly ended '
+                      f'with {obs["cls"]} (cause {obs["cause"]}): {obs["msg"][:120]!r}'))
         elif obs['cls'] not in ASM_EXCEPTIONS:
             v.append(({'kind': 'unspecific', 'exc': obs['cls'], 'frame': obs['frame']},
                       f'{obs["cls"]} is not one of the specific assembly exceptions'))
@@ -277,7 +288,7 @@ def judge(case, obs):
 
 def replay_of(case, obs):
     text = case['text']
-    r = {'case': {k: case[k] for k in ('cls', 'hint', 'w', 'v', 'stl', 'warm', 'files', 'max_depth', 'debug') if k in case},
+    r = {'case': {k: case[k] for k in ('cls', 'hint', 'w', 'v', 'stl', 'warm', 'files', 'max_depth', 'debug', 'require') if k in case},
          'source': text if isinstance(text, str) else text.decode('latin1'),
          'observed': {k: obs.get(k) for k in ('result', 'cls', 'cause', 'catch_all', 'frame', 'frame_file', 'stage', 'msg',
                                                'out_exists', 'out_size', 'reader', 'secs', 'debug', 'dbg_exists', 'dbg_load',
@@ -351,6 +362,7 @@ LIB_CODE = [  # (exception class, regex on the message) -> libkind code of AsmEr
     ('FlipJumpAssemblerException', r'Not enough space.* in op ', 31), ('FlipJumpAssemblerException', r' in op ', 30),
     ('FlipJumpAssemblerException', r'segment boundaries are unaligned', 32), ('FlipJumpAssemblerException', r'Not enough space', 33),
     ('FlipJumpAssemblerException', r'failed to add the segment', 34), ('FlipJumpAssemblerException', r'no first op at address 0', 35),
+    ('FlipJumpAssemblerException', r'nests too deeply', 36),
 ]
 RAW_CODE = {'ZeroDivisionError': 1, 'ValueError': 2, 'TypeError': 3, 'KeyError': 4, 'IndexError': 5, 'MemoryError': 6,
             'OverflowError': 6, 'RecursionError': 7, 'struct.error': 8}
@@ -650,7 +662,8 @@ def run(ctx):
         c, o, sig, what = found[k]
         listed = any(f['property'] == ctx.prop and all(sig.get(a) == b for a, b in f['match'].items())
                      for f in ctx.findings.get('findings', []))
-        c2 = c if listed else shrink(ctx, c, sig)       # a listed finding is only named, not minimised again
+        # a listed finding is only named, not minimised again; a program built for one required diagnostic is kept whole
+        c2 = c if listed or sig.get('kind') == 'wrong-diagnostic' else shrink(ctx, c, sig)
         if c2 is not c:
             o2 = run_cases(ctx, [dict(c2, id='min')])[0]
             if any(s == sig for s, _ in judge(c2, o2)):
